@@ -577,6 +577,45 @@ def _combinator_key(c):
     return None
 
 
+_ONE_INSERT = {'std::collections::BTreeMap': ('insert', 2), 'std::collections::HashMap': ('insert', 2),
+               'std::collections::BTreeSet': ('insert', 1), 'std::collections::HashSet': ('insert', 1),
+               'std::vec::Vec': ('push', 1), 'std::collections::VecDeque': ('push_back', 1)}
+
+
+def _extend_with_option(blocks, locals_, blk, t):
+    """`coll.extend(opt)` with `opt: Option<T>` is `if let Some(x) = opt { coll.insert(x) }` (for a map: insert(x.0, x.1)):
+    an Option iterates over zero or one item and std's Extend for these collections inserts each item in turn."""
+    c = t['callee']
+    if c.get('name') != 'extend' or c.get('trait') != 'std::iter::Extend' or len(t['args']) != 2:
+        return False
+    st = c.get('self_ty') or {}
+    one = _ONE_INSERT.get(st.get('path'))
+    a0, a1 = t['args']
+    if one is None or a1.get('k') not in ('move', 'copy') or a1['place']['proj']:
+        return False
+    oty = locals_[a1['place']['local']]['ty']
+    if oty.get('k') != 'adt' or oty.get('path') != OPT or not oty.get('args'):
+        return False
+    item = oty['args'][0]
+    if one[1] == 2 and not (item.get('k') == 'tuple' and len(item.get('elems', [])) == 2):
+        return False
+    B = _Builder(blocks, locals_, t['span'])
+    ol = a1['place']['local']
+    d0 = B.local(ISIZE)
+    blk['stmts'].append(B.assign(_pl(d0), {'k': 'discr', 'place': _pl(ol)}))
+    some = B.block()
+    blk['term'] = {'k': 'switch', 'discr': _mv(d0), 'discr_ty': ISIZE, 'targets': [[1, some], [0, t['target']]], 'otherwise': t['target'],
+                   'span': t['span']}
+    if one[1] == 2:
+        ops = [_mv(ol, SOME_P + [_tuple_field(0)]), _mv(ol, SOME_P + [_tuple_field(1)])]
+    else:
+        ops = [_mv(ol, list(SOME_P))]
+    callee = _pseudo_callee(one[0], None, st, st['path'] + '::' + one[0])
+    blocks[some]['term'] = B.call(callee, [a0] + ops, B.local(), t['target'])
+    blocks[some]['term']['unwind'] = t.get('unwind')
+    return True
+
+
 def desugar_combinators(facts, body, blocks, locals_, depth, stack, t1=True):
     """`cond.then(|| x)`, `opt.map(f)`, `opt.filter(p)`, `opt.map_or(d, f)`, `opt.ok_or(e)`, `res.map_err(f)`, .. become the
     switch on the receiver they abbreviate, with the closure bodies spliced into the arms.  Function items used as the
@@ -589,6 +628,11 @@ def desugar_combinators(facts, body, blocks, locals_, depth, stack, t1=True):
         t = blk['term']
         i += 1
         if blk['cleanup'] or t['k'] != 'call' or t.get('target') is None or not t.get('callee') or not t['args']:
+            continue
+        if _extend_with_option(blocks, locals_, blk, t):
+            changed = True
+            guard += 1
+            i = 0
             continue
         key = _combinator_key(t['callee'])
         if key is None or key not in COMBINATORS:
